@@ -322,14 +322,29 @@ class _TranslationState:
             self.active_dep[channel] = key
             self.plain_voltage[channel] = value
 
+    def _entry_state_unchanged_since(self, active_dep, plain_voltage, dep_states) -> bool:
+        """True if every register state, active register and plain voltage recorded in the given snapshot still has
+        the same value. Commands that were translated against the snapshot (elided sets, increments relative to a
+        register state) are then also correct when they are executed again from the current state. Registers and
+        channels that were not known at the time of the snapshot are initialized by an unconditional Set."""
+        return (all(self.active_dep.get(ch, None) == key for ch, key in active_dep.items())
+                and all(self.plain_voltage.get(ch, None) == value for ch, value in plain_voltage.items())
+                and all(self.dep_states.get(ch, {}).get(key, None) == state
+                        for ch, states in dep_states.items()
+                        for key, state in states.items()))
+
     def _add_repetition_node(self, node: LinSpaceRepeat):
         pre_dep_state = self.get_dependency_state(node.dependencies())
+        entry_state = (dict(self.active_dep), dict(self.plain_voltage),
+                       {ch: dict(states) for ch, states in self.dep_states.items()})
         label, jmp = self.new_loop(node.count)
         initial_position = len(self.commands)
         self.commands.append(label)
         self.add_node(node.body)
         post_dep_state = self.get_dependency_state(node.dependencies())
-        if pre_dep_state != post_dep_state:
+        if pre_dep_state != post_dep_state or not self._entry_state_unchanged_since(*entry_state):
+            # the commands above were translated against the state at the loop entry and can not be replayed from
+            # the state the body leaves behind -> keep them as an unrolled first pass and loop over a second translation
             # hackedy
             self.commands.pop(initial_position)
             label.count -= 1
